@@ -62,26 +62,17 @@ theorem C08_parser_sim (s : Stream) : PSim [] (parseFields .warn s) (parseFields
     does nothing. A site that starts adding a finding under ignore, stops returning under fail, or a new site, changes this
     table. -/
 theorem C08_sites : Gen.policySites = [
-  ("validateHeader", "spec", "cmp:>ErrIgnore"),
-  ("validateHeader", "spec", "switch:Fr,Wa"), ("validateHeader", "spec", "switch:Fr,Wa"), ("validateHeader", "spec", "switch:Fr,Wa"),
-  ("validateHeader", "spec", "switch:Fr,Wa"), ("validateHeader", "spec", "switch:Fr,Wa"),
-  ("resolveRecordType", "spec", "switch:Fr,I-,Wa"), ("resolveRecordType", "unk", "switch:Fr,I-,Wa"),
-  ("checkLegal", "spec", "cmp:>ErrIgnore"), ("checkLegal", "spec", "cmp:>ErrIgnore"),
-  ("newHttpBlock", "syn", "switch:Fr,Wa"),
-  ("newHttpBlock", "blk", "cmp:>ErrIgnore"), ("newHttpBlock", "blk", "cmp:==ErrWarn"), ("newHttpBlock", "-", "addError-outside-switch"),
-  ("newHttpBlock", "blk", "cmp:>ErrIgnore"), ("newHttpBlock", "blk", "cmp:==ErrWarn"), ("newHttpBlock", "-", "addError-outside-switch"),
   ("Merge", "syn", "cmp:>ErrWarn"), ("Merge", "syn", "cmp:>ErrWarn"),
-  ("ValidateDigest", "spec", "cmp:>ErrIgnore"), ("ValidateDigest", "spec", "switch:Fr,Was"),
-  ("ValidateDigest", "spec", "cmp:>ErrIgnore"), ("ValidateDigest", "spec", "switch:Fr,I-,Was"),
-  ("ValidateDigest", "spec", "cmp:>ErrIgnore"), ("ValidateDigest", "spec", "switch:Fr,I-,Was"),
-  ("Unmarshal", "syn", "cmp:>=ErrFail"), ("Unmarshal", "syn", "cmp:>=ErrWarn"), ("Unmarshal", "-", "addError-outside-switch"),
-  ("Unmarshal", "syn", "switch:Fr,Wa"), ("Unmarshal", "spec", "switch:Fr,Wa"),
-  ("resolveRecordVersion", "spec", "switch:Dr,Fr,War"),
-  ("newWarcFieldsBlock", "syn", "cmp:>ErrIgnore"), ("newWarcFieldsBlock", "syn", "switch:Fr,Wa"),
-  ("newWarcFieldsBlock", "blk", "cmp:>ErrIgnore"), ("newWarcFieldsBlock", "blk", "switch:Fr,Wa"),
-  ("newWarcFieldsBlock", "syn", "cmp:==ErrIgnore"),
+  ("Parse", "syn", "switch:Fr,I-,Wa"), ("Parse", "syn", "switch:Fr,I-,Wa"), ("Parse", "syn", "switch:Fr,I-,Wa"), ("Parse", "syn", "switch:Fr,I-,Wa"),
+  ("Unmarshal", "syn", "cmp:>=ErrFail"), ("Unmarshal", "syn", "cmp:>=ErrWarn"), ("Unmarshal", "-", "addError-outside-switch"), ("Unmarshal", "syn", "switch:Fr,Wa"), ("Unmarshal", "spec", "switch:Fr,Wa"),
+  ("ValidateDigest", "spec", "cmp:>ErrIgnore"), ("ValidateDigest", "spec", "switch:Fr,Was"), ("ValidateDigest", "spec", "cmp:>ErrIgnore"), ("ValidateDigest", "spec", "switch:Fr,I-,Was"), ("ValidateDigest", "spec", "cmp:>ErrIgnore"), ("ValidateDigest", "spec", "switch:Fr,I-,Was"),
+  ("checkLegal", "spec", "cmp:>ErrIgnore"), ("checkLegal", "spec", "cmp:>ErrIgnore"),
+  ("newHttpBlock", "syn", "switch:Fr,Wa"), ("newHttpBlock", "blk", "cmp:>ErrIgnore"), ("newHttpBlock", "blk", "cmp:==ErrWarn"), ("newHttpBlock", "-", "addError-outside-switch"), ("newHttpBlock", "blk", "cmp:>ErrIgnore"), ("newHttpBlock", "blk", "cmp:==ErrWarn"), ("newHttpBlock", "-", "addError-outside-switch"),
+  ("newWarcFieldsBlock", "syn", "cmp:>ErrIgnore"), ("newWarcFieldsBlock", "syn", "switch:Fr,Wa"), ("newWarcFieldsBlock", "blk", "cmp:>ErrIgnore"), ("newWarcFieldsBlock", "blk", "switch:Fr,Wa"), ("newWarcFieldsBlock", "syn", "cmp:==ErrIgnore"),
   ("readLine", "syn", "cmp:>ErrIgnore"), ("readLine", "syn", "cmp:==ErrFail"),
-  ("Parse", "syn", "switch:Fr,I-,Wa"), ("Parse", "syn", "switch:Fr,I-,Wa"), ("Parse", "syn", "switch:Fr,I-,Wa"), ("Parse", "syn", "switch:Fr,I-,Wa")] := by
+  ("resolveRecordType", "spec", "switch:Fr,I-,Wa"), ("resolveRecordType", "unk", "switch:Fr,I-,Wa"),
+  ("resolveRecordVersion", "spec", "switch:Dr,Fr,War"),
+  ("validateHeader", "spec", "cmp:>ErrIgnore"), ("validateHeader", "spec", "switch:Fr,Wa"), ("validateHeader", "spec", "switch:Fr,Wa"), ("validateHeader", "spec", "switch:Fr,Wa"), ("validateHeader", "spec", "switch:Fr,Wa"), ("validateHeader", "spec", "switch:Fr,Wa")] := by
   decide
 
 /-- every policy switch has the canonical shape -/
